@@ -58,6 +58,7 @@ class FunctionSpec:
     may_raise: Set[str] = field(default_factory=set)
     keep_own_safety: bool = False      # with may_raise: only callees may raise; this function's own subscripts / pops stay safety obligations
     class_invariants: bool = False     # use the declared class invariants (schema.CLASS_INVARIANTS) as background axioms in this verification
+    elementwise: Set[str] = field(default_factory=set)    # scalar parameters that may be given as a numpy array: the contract then holds element by element (assumed broadcasting)
     verify_only: bool = False          # the body is verified against this contract, but call sites keep inlining the body (constructors)
 
     @property
@@ -86,6 +87,8 @@ def view(engine, st, v):
         return ExtView(v.ninf, v.v)
     if isinstance(v, VTuple):
         return tuple(view(engine, st, i) for i in v.items)
+    if isinstance(v, VRecord):
+        return {n: view(engine, st, i) for n, i in v.items}
     if isinstance(v, VFunc):
         return FuncView(engine, st, v)
     if isinstance(v, VIter):
